@@ -8,6 +8,8 @@ machine for cross-row temporal issues; every row permutation of every file with 
 import io
 import itertools
 import json
+import os
+import shutil
 
 from mc import core
 from props.c10 import RefMachine
@@ -479,6 +481,34 @@ def worker(rec, shard, nshards, thorough, seed):
                               got=[(x.get("ec_row"), x.get("ec_column")) for x in issues if x["code"] == "TAG_EXTENDED"])
                 break
         rec.outcome("headerless-sheet")
+        # F8x the same sheet as an Excel workbook whose n/a cells are left empty: no exception, the same issues
+        # (a last column that is empty throughout does not exist in the workbook: asking for it is another question)
+        if "na" in combo and not (combo[1] == "na" and combo[3] == "na"):
+            import openpyxl
+            import tempfile
+            tmpdir = tempfile.mkdtemp(dir="/dev/shm", prefix="verif-c07x-")
+            try:
+                path = os.path.join(tmpdir, "s.xlsx")
+                wb = openpyxl.Workbook()
+                for r in rows8:
+                    wb.active.append([None if k == "na" else KINDS[k] for k in r])
+                wb.save(path)
+                rec.n("evaluations")
+                try:
+                    xl = SpreadsheetInput(path, tag_columns=[0, 1], has_column_names=False, name="s.xlsx")
+                    xissues = xl.validate(env.schema, extra_def_dicts=env.dd)
+                except Exception as e:
+                    rec.violation(f"C07:raises:{type(e).__name__}:excel-empty-cell", rows=[list(r) for r in rows8], error=repr(e)[:300])
+                    continue
+
+                def key(lst):
+                    return sorted((x["code"], x.get("ec_row"), repr(x.get("ec_column"))) for x in lst)
+                if key(xissues) != key(issues):
+                    rec.violation("C07:excel-empty-cells-judged-differently-from-n/a", rows=[list(r) for r in rows8],
+                                  tsv=key(issues), excel=key(xissues))
+                rec.outcome("excel-sheet")
+            finally:
+                shutil.rmtree(tmpdir, ignore_errors=True)
     # F9 the same two cells in swapped columns: which column holds the failing cell does not change what the row reports
     k9 = ["tag", "unknown", "reptag", "badgroup", "onset", "offset", "ext"]
     # (two temporal markers in one row are excluded: their order in the row is the order of the history, C10)
